@@ -49,12 +49,14 @@ def _case(draw):
                      "handler": draw(st.sampled_from(["raw", "typed"] if clean else HK))})
     wires = []
     filled = set()
+    topo = list(draw(st.permutations(list(range(n))))) if draw(st.booleans()) else list(range(n))   # producers need not be declared before consumers
     for _ in range(draw(st.integers(0, 12))):
         mode = draw(st.integers(0, 9))
         if mode <= 6 and n >= 2:
-            # try a well-typed forward wire into a still-unfilled input
-            a = draw(st.integers(0, n - 2))
-            b = draw(st.integers(a + 1, n - 1))
+            # try a well-typed forward wire (w.r.t. `topo`) into a still-unfilled input; repeats give parallel wires from one producer
+            pa = draw(st.integers(0, n - 2))
+            pb = draw(st.integers(pa + 1, n - 1))
+            a, b = topo[pa], topo[pb]
             cands = [(i, j) for i, so in enumerate(mods[a]["outs"]) for j, di in enumerate(mods[b]["ins"])
                      if so[0] == di[0] and IL.index(so[1]) >= IL.index(di[1]) and (b, j) not in filled]
             if cands:
